@@ -1,5 +1,5 @@
 """C16 — meaning is invariant under renaming, layout and agreeing annotations."""
-import collections
+import collections, re, time
 from vlib import *
 import progcheck as pc
 sys.path.insert(0, os.path.join(VERIF, "tools", "gen"))
@@ -126,8 +126,143 @@ def module_family(rng, count):
     return out
 
 
+# ---------------------------------------------------------------------------------------------------------------------------
+# lowering correspondence: the real `parse_program` (tokenize, preparse, parse_cst, Lowerer::lower_program) vs the ported front
+# end text -> tokens -> CST -> AST (Model/Lexer, Preparse, CstGrammar, Lower.lean); the printed `Program`s (every span evaluated to
+# byte offsets) and the error lists are compared EXACTLY by `drv_c16`
+SPAN_RE = re.compile(r"@\d+\.\.\d+")
+TAG_RE = re.compile(r"[(\[]([a-z]+)")
+
+
+def lower_stream(name, mmh_args, stdin_data=None):
+    """returns (counts, problems, impl_lines): counts of the driver's verdicts, the disagreeing cases, the harness lines"""
+    p = mmh("C13", mmh_args, input=stdin_data, env={"C13_LOWER": "1"})
+    if p.returncode != 0:
+        return collections.Counter(), [{"kind": "harness-crash", "stream": name, "stderr": p.stderr[-2000:]}], []
+    q = driver("C16", input=p.stdout)
+    if q.returncode != 0:
+        return collections.Counter(), [{"kind": "driver-crash", "stream": name, "stderr": q.stderr[-2000:]}], []
+    cnt, problems = collections.Counter(), []
+    il = p.stdout.split("\n")
+    for a, b in zip(il, q.stdout.split("\n")):
+        if not a:
+            continue
+        g = b.split("\t")
+        cnt["cases"] += 1
+        cnt[g[0]] += 1
+        if len(g) >= 4 and g[0] == "ok":
+            if int(g[2]) > 0:
+                cnt["with_statements"] += 1
+            if int(g[3]) > 0:
+                cnt["with_errors"] += 1
+            continue
+        f = a.split("\t")
+        problems.append({"kind": "case", "stream": name, "agree": g[0], "lower_src_hex": f[0], "src": bytes.fromhex("" if f[0] == "-" else f[0]).decode("utf-8", "replace"),
+                         "impl_program": (f[2] if len(f) > 2 else "")[:3000], "impl_errors": (f[3] if len(f) > 3 else "")[:1000],
+                         "model_detail": (g[4] if len(g) > 4 else b)[:1500]})
+    return cnt, problems, il
+
+
+def lowering_stage(ctx, rendered, replay_hex=None):
+    """rendered: list of (id, base id or None, transformation or None, source) of the generated programs of this run"""
+    t0 = time.time()
+    counts, problems, tags = collections.Counter(), [], collections.Counter()
+    jobs = []
+    if replay_hex is not None:
+        jobs.append(("replay", ["lines"], replay_hex + "\n"))
+    else:
+        data = ""
+        cdir = os.path.join(VERIF, "corpus", "C16")
+        if os.path.isdir(cdir):
+            for fn in sorted(os.listdir(cdir)):
+                if fn.startswith("lower"):
+                    data += "".join(l for l in open(os.path.join(cdir, fn)) if l.strip() and not l.startswith("#"))
+        jobs.append(("corpus", ["lines"], data))
+        jobs.append(("files", ["files"], None))
+        quick = ctx.tier == "quick"
+        jpath = os.path.join(LEAN, "Mimium", "Gen", "extracted.json")
+        if quick:
+            jobs += [(f"enum{k}", ["enum", "3", str(k), "2"], None) for k in range(2)]
+            jobs.append(("enum4-shard", ["enum", "4", str(ctx.seed % 16), "16"], None))
+            jobs.append(("tokseq-full2", ["tokseq", jpath, "full", "2", "sep", "0", "1"], None))
+            jobs.append(("tokseq-full3-shard", ["tokseq", jpath, "full", "3", "sep", str(ctx.seed % 24), "24"], None))
+            jobs += [(f"tokseq-core4-{k}", ["tokseq", jpath, "core", "4", "sep", str(k), "2"], None) for k in range(2)]
+            jobs.append(("tokseq-nosep", ["tokseq", jpath, "full", "2", "nosep", "0", "1"], None))
+            jobs += [(f"rand{i}", ["rand", str(ctx.seed * 1000 + 500 + i), "8000", str(4 + 8 * i)], None) for i in range(4)]
+            scope = ("all strings of length <= 3 over C13's 24-symbol alphabet + 1/16 of length 4; all sequences of <= 2 tokens over the 70 "
+                     "spellings of C04's alphabet + 1/24 of length 3; <= 4 tokens over its 14-kind core; <= 2 without separator")
+        else:
+            jobs += [(f"enum{k}", ["enum", "4", str(k), "16"], None) for k in range(16)]
+            jobs += [(f"tokseq-full{k}", ["tokseq", jpath, "full", "3", "sep", str(k), "24"], None) for k in range(24)]
+            jobs += [(f"tokseq-core{k}", ["tokseq", jpath, "core", "5", "sep", str(k), "16"], None) for k in range(16)]
+            jobs.append(("tokseq-nosep", ["tokseq", jpath, "full", "2", "nosep", "0", "1"], None))
+            jobs += [(f"rand{i}", ["rand", str(ctx.seed * 1000 + 500 + i), "40000", str(4 + 6 * (i % 8))], None) for i in range(32)]
+            scope = ("all strings of length <= 4 over C13's 24-symbol alphabet; all sequences of <= 3 tokens over the 70 spellings of C04's "
+                     "alphabet and <= 5 over its 14-kind core; <= 2 without separator")
+        ctx.coverage["lowering_exhaustive_scope"] = scope
+        nsh = 6
+        for k in range(nsh):
+            part = rendered[k::nsh]
+            if part:
+                jobs.append((f"generated{k}", ["lines"], "".join((src.encode().hex() or "-") + "\n" for _, _, _, src in part), part))
+
+    def work(job):
+        cnt, pr, il = lower_stream(job[0], job[1], job[2])
+        return job, cnt, pr, il
+    same_ast, layout_pairs, per_tf = 0, 0, collections.Counter()
+    gen_ast = {}
+    for job, cnt, pr, il in parallel(jobs, work):
+        counts.update(cnt)
+        problems += pr
+        if job[0] in ("files", "corpus") or job[0].startswith("rand0") or job[0].startswith("generated0"):
+            for a in il:
+                f = a.split("\t")
+                if len(f) > 2:
+                    tags.update(TAG_RE.findall(f[2]))
+        if len(job) > 3:          # generated programs: remember the real AST modulo spans per rendering
+            for (cid, base, tname, src), a in zip(job[3], [l for l in il if l]):
+                f = a.split("\t")
+                gen_ast[cid] = (base, tname, SPAN_RE.sub("", f[2]) if len(f) > 2 else "?")
+    # layout renderings of one program: same real AST modulo spans?  (parentheses are dropped by lower.rs, see C16_lower_parens_transparent)
+    for cid, (base, tname, ast) in gen_ast.items():
+        if base is None or not (tname == "parens" or tname.startswith("layout")):
+            continue
+        layout_pairs += 1
+        per_tf[tname] += 1
+        if base in gen_ast and gen_ast[base][2] == ast:
+            same_ast += 1
+            per_tf[tname + ":same-ast"] += 1
+    bad = [pr for pr in problems if pr["kind"] != "case"]
+    for pr in bad:
+        ctx.violation(f"lowering correspondence: {pr['kind']} in stream {pr.get('stream')}", pr, found_input=False)
+    dis = [pr for pr in problems if pr["kind"] == "case"]
+    if dis:
+        best = min(dis, key=lambda pr: len(pr["lower_src_hex"]))
+        ctx.violation(f"lowering: ported front end (Model/Lower.lean) and the real parse_program disagree on {len(dis)} cases "
+                      f"({best['agree']}; smallest src={best['src']!r}): {best['model_detail'][:400]}",
+                      dict(best, correspondence="Model/Lexer+Preparse+CstGrammar+Lower.lean vs mimium_lang::compiler::parser::parse_program",
+                           cases=len(dis), by_class=dict(collections.Counter(pr["agree"] for pr in dis)),
+                           replay_cmd="./check C16 --replay <this file>"), found_input=False)
+    ctx.coverage["lowering_correspondence"] = {
+        "what": "printed Program (statements, expressions, patterns, types, match patterns, every span as byte offsets) and error list (parser "
+                "errors + reserved-name diagnostics) of the real parse_program == ported front end text -> tokens -> CST -> AST, compared as strings",
+        "cases": counts["cases"], "agree": counts["ok"],
+        "disagreements": {k: v for k, v in counts.items() if k.startswith("DIFF") or k == "bad-input"},
+        "cases_with_statements": counts["with_statements"], "cases_with_errors(error-recovery trees)": counts["with_errors"],
+        "generated_renderings_compared": len(gen_ast),
+        "ast_constructs_seen(files+corpus+samples)": dict(tags.most_common()),
+        "layout_renderings_with_the_original's_AST_modulo_spans(real code)": f"{same_ast}/{layout_pairs}",
+        "per_transformation": dict(per_tf),
+        "wall_s": round(time.time() - t0, 1),
+    }
+    return counts
+
+
 def main(ctx, args):
     ctx.assumptions += [
+        "Model/Lower.lean is a port of lower.rs + ast/statement.rs (attribute-grammar organisation of the recursion, spans as terms over the token "
+        "leaves); the tie is the exact comparison of the printed Program + error list with the real parse_program on every case of the lowering "
+        "streams, plus the body-hash pins of tools/extract.py (gen_lower / tools/lower_pins.json, theorem C16_lower_functions_pinned)",
         "transformations are applied by the generator's renderer to one AST (injective rename maps, capture-free shadowing renamings of one local, redundant parentheses around every binary expression, comments/blank lines/line breaks inside brackets, type annotations equal to the types the generator knows)",
         "reference = the untransformed program on the same backend (VM) and the Lean reference semantics",
     ]
@@ -135,11 +270,17 @@ def main(ctx, args):
     if not extract(ctx):
         ctx.finish()
     extracted = json.load(open(os.path.join(LEAN, "Mimium", "Gen", "extracted.json")))
-    proved = prove(ctx, MODULES, drivers=["drv_prog"])
+    proved = prove(ctx, MODULES, drivers=["drv_prog", "drv_c16"])
     if proved and ctx.tier == "thorough":
         proved = leancheck(ctx, MODULES)
     if not build_harness(ctx, bins=["runprog"]):
         ctx.finish()
+    if args.replay and "lower_src_hex" in json.load(open(args.replay)):
+        lowering_stage(ctx, [], replay_hex=json.load(open(args.replay))["lower_src_hex"])
+        if not proved:
+            ctx.violation("proof obligation broken: " + "; ".join(ctx._broken), {"stage": "prove", "theorems": ctx._broken,
+                          "lake": getattr(ctx, "_lake_errors", "")}, found_input=False)
+        ctx.finish("proof")
     times = 12
     nprog = 600 if ctx.tier == "quick" else 6000
     rng = coregen.Rng(ctx.seed * 31337 + 5)
@@ -164,6 +305,8 @@ def main(ctx, args):
             cases.append(dict(id=f"mod{j}", src=o_src, sx=None, inputs=[], times=4))
             cases.append(dict(id=f"mod{j}|{tname}", src=r_src, sx=None, inputs=[], times=4))
             meta[f"mod{j}|{tname}"] = (f"mod{j}", tname)
+    if not args.replay:
+        lowering_stage(ctx, [(c["id"],) + (meta[c["id"]] if c["id"] in meta else (None, None)) + (c["src"],) for c in cases])
     res = pc.run_batch(cases, backends="vm")
     failures, stats, nontriv, samples = [], collections.Counter(), set(), []
     bycase = {c["id"]: c for c in cases}
